@@ -3,14 +3,25 @@ module verif
 go 1.23
 
 require (
+	github.com/google/uuid v1.3.0
 	github.com/mattn/go-sqlite3 v1.14.14
 	github.com/wrgl/wrgl v0.0.0
 )
 
 require (
-	github.com/google/uuid v1.3.0 // indirect
+	github.com/VividCortex/ewma v1.2.0 // indirect
+	github.com/acarl005/stripansi v0.0.0-20180116102854-5a71ef0e047d // indirect
+	github.com/davecgh/go-spew v1.1.1 // indirect
+	github.com/go-logr/logr v1.2.3 // indirect
 	github.com/klauspost/compress v1.16.7 // indirect
+	github.com/mattn/go-runewidth v0.0.14 // indirect
 	github.com/pckhoi/meow v0.0.0-20211009023351-e1fff1d3c870 // indirect
+	github.com/pmezard/go-difflib v1.0.0 // indirect
+	github.com/rivo/uniseg v0.4.3 // indirect
+	github.com/stretchr/testify v1.8.1 // indirect
+	github.com/vbauerster/mpb/v8 v8.1.4 // indirect
+	golang.org/x/sys v0.11.0 // indirect
+	gopkg.in/yaml.v3 v3.0.1 // indirect
 )
 
 replace github.com/wrgl/wrgl => /repo
